@@ -551,3 +551,34 @@ pub fn run(ctx: &mut Ctx) {
         }
     });
 }
+
+/// seed corpus for the libFuzzer stage
+pub fn emit(dir: &str, seed: u64, n: usize) {
+    for (i, s) in NAMED.iter().enumerate() {
+        let _ = std::fs::write(format!("{}/named_{}", dir, i), s);
+    }
+    for i in 0..n {
+        let mut rng = Rng::new(crate::rng::mix(&[seed, 0xC09, i as u64]));
+        let text = match i % 3 {
+            0 => match w1b(rng.next_u64() % (TEMPLATES.len() as u64 * 44)) {
+                Some((src, _)) => src,
+                None => continue,
+            },
+            1 => match w1(&mut rng) {
+                Some(s) => s,
+                None => continue,
+            },
+            _ => {
+                let mut p = valid_program(&mut rng);
+                mutate_tree(&mut rng, &mut p);
+                match render(&p, &Spelling::canonical(), &mut rng) {
+                    Ok(r) => r.text,
+                    Err(_) => continue,
+                }
+            }
+        };
+        if text.len() < 2000 {
+            let _ = std::fs::write(format!("{}/seed_{}", dir, i), text);
+        }
+    }
+}
